@@ -43,7 +43,7 @@ PROPS = {
     "C16": dict(
         props_v="Props/C16.v",
         corr_v=["Corr/CheckC16.v"],
-        n_quick=90, n_thorough=3000,
+        n_quick=250, n_thorough=4000,
         explanation="Theorems: by id / name / identifier / root membership / purl type return precisely the nodes meeting the criterion (identifier-type spellings from the generated tables); GetMatchingNode equals the documented rule on lists with unique identifiers, never returns a node outside the list (all lists), is sound, and is invariant under every permutation of the node list (unique identifiers; refuted with repeated identifiers = known finding K11). Tie: all six lookups observed on random lists vs Model/Match.v; matching repeated 20x and on shuffled lists.",
         assumptions=[GRAPH_NOTE, "strings.ToLower/TrimSpace are modelled for ASCII (generator uses ASCII spellings)", "Go map iteration order is abstracted: the model iterates in list order and the theorem proves the outcome independent of it"],
     ),
